@@ -36,7 +36,13 @@ def random_slot_word(rng, kind):
                'movt', 'adr', 'qadd', 'ssat', 'usat', 'par', 'sel', 'ldm', 'stm', 'push', 'pop')
         _slot_rows[kind] = [r for r in tab.rows if r.kind == 'INSTR' and r.sem and r.sem.split(':')[0] in fam]
     row = rng.choice(_slot_rows[kind])
-    return lockstep.gen_word(tab, row, rng, tries=4)
+    fixed = None
+    if rng.random() < 0.3:
+        # one register operand pinned to the SP or LR (whose numbers, 1101 / 1110, look like condition-field patterns)
+        regf = [ch for ch, b in row.fields.items() if len(b) == 4 and ch in 'ndmstauhl']
+        if regf:
+            fixed = {rng.choice(regf): rng.choice([13, 13, 14])}
+    return lockstep.gen_word(tab, row, rng, tries=4, fixed=fixed)
 
 
 def legal_it():
@@ -57,7 +63,7 @@ def block_len(mask):
 def plan(tier, seed):
     q = tier == 'quick'
     n = 12 if q else 48
-    return [dict(kind='table', seed=seed, shard=0)] + [dict(kind='programs', seed=seed, shard=i, of=n, mixes=1 if q else 60)
+    return [dict(kind='table', seed=seed, shard=0)] + [dict(kind='programs', seed=seed, shard=i, of=n, mixes=3 if q else 60)
                                                          for i in range(n)]
 
 
